@@ -26,14 +26,16 @@ ENGINE = 'A'
 TECHNIQUE = ('explicit-state exploration of the real inspector/wrapper objects '
              'over all chunkings (subsets of a cut set; all positions for small '
              'streams), exact state merging, differential terminal oracle')
-LEVEL_TEXT = ('For every stream of the family and every inspector (and the '
-              'wrapper), all 2^|C| ways of cutting the stream at the candidate '
-              'positions C - with empty chunks and read-only queries in every '
-              'reachable state - are explored on the real objects and must end '
-              'in one and the same verdict; retained region bytes are compared '
-              'with the stream in every state. For the capture engine every '
-              'stream up to length 6/8 over a 5/6-letter alphabet is explored '
-              'under every one of its chunkings.')
+LEVEL_TEXT = ('For every stream of the family and every inspector (and the wrapper, read both '
+'with exact-size reads and with fixed-size reads that the source answers short '
+'or empty), all 2^|C| ways of cutting the stream at the candidate positions C - '
+'with empty chunks and read-only queries in every reachable state - are '
+'explored on the real objects and must end in one and the same verdict; '
+'retained region bytes are compared with the stream in every state; the witness '
+'path is run again without any intermediate query (I9), with re-used bytearray '
+'/ memoryview chunks (I8), and pairs of objects are interleaved (I7). For the '
+'capture engine every stream up to length 6/8 over a 5/6-letter alphabet is '
+'explored under every one of its chunkings.')
 LEVEL_NOTE = ('Bounded: streams are the generated family (not all byte '
               'strings); for streams above ~1.5 KiB chunkings are all subsets '
               'of the printed candidate set rather than all positions '
